@@ -57,10 +57,10 @@ def main(pid, tier, replay_path=None):
                 scs = [rp['scenario']] if 'scenario' in rp and isinstance(rp['scenario'], dict) and 'peer' in rp['scenario'] else []
                 sessions = [rp['session']] if 'session' in rp else []
             else:
-                scs = conn.gen_scenarios('stream', 1500 if tier == 'quick' else 30000, seed)
+                scs = conn.gen_scenarios('stream', 1500 if tier == 'quick' else 80000, seed)
                 scs += conn.gen_scenarios('req', 200 if tier == 'quick' else 3000, seed)
                 scs += conn.gen_scenarios('flush', 200 if tier == 'quick' else 3000, seed)
-                sessions = gen_sessions(60 if tier == 'quick' else 1500, seed, False) + gen_sessions(4 if tier == 'quick' else 60, seed + 1, True)
+                sessions = gen_sessions(60 if tier == 'quick' else 4000, seed, False) + gen_sessions(4 if tier == 'quick' else 120, seed + 1, True)
             res, crashed = conn.run_scenarios(sc, binary, scs, 'a', procs=12) if scs else ({}, [])
             vs, nlines, st = conn.validate(sc, res, [s['id'] for s in scs], 'a') if scs else ([], 0, {})
             sres, scr = run_sessions(sc, binary, sessions) if sessions else ({}, [])
